@@ -159,7 +159,7 @@ Definition block_value (unz : Z -> list Z -> option (list Z)) (lib : hlib) (b : 
 (* --------------------------------------------------- correspondence cases *)
 
 Inductive c11cram :=
-| CItf8Slice (s : list Z) (cl : Z)
+| CItf8Slice (s : list Z) (cl n : Z)
 | CBlocks (s : list Z) (value_panic : bool).
 
 (** Every block of a raw container body: read it, take its Value. *)
@@ -177,6 +177,10 @@ Fixpoint blocks_value_panics (s : list Z) (fuel : nat) : bool :=
 
 Definition c11cram_agree (c : c11cram) : bool :=
   match c with
-  | CItf8Slice s cl => cls (er_itf8slice {| e_s := s; e_err := false |}) =? (if cl =? 2 then 2 else 0)
+  | CItf8Slice s cl n =>
+    match er_itf8slice {| e_s := s; e_err := false |} with
+    | Ok (vs, r) => negb (cl =? 2) && (zlen vs =? n) && Bool.eqb (e_err r) (cl =? 1)
+    | o => cls o =? cl
+    end
   | CBlocks s vp => Bool.eqb (blocks_value_panics s 8) vp
   end.
